@@ -1,9 +1,10 @@
 /-
   Model of pgdump/types.go (Oid constants, typeNames / TypeName, DecodeType dispatch, decodeScalar and
   all its helpers, safeString) and of the readers of pgdump/binary.go, as repaired by
-  /verif/fixes/scalars/01..10 (xid/cid unsigned, uuid byte order, timestamp arithmetic and
+  /verif/fixes/scalars/01..12 (xid/cid unsigned, uuid byte order, timestamp arithmetic and
   ±infinity, date ±infinity, timetz zone, interval signs, range bound alignment, short-input
-  guard, path count guard, bit-string clamp).  One Lean function per Go function, same guards, same
+  guard, path count guard, bit-string clamp, money in integer arithmetic, fractional seconds of
+  time / timetz / timestamp[tz] / interval).  One Lean function per Go function, same guards, same
   order of evaluation; every slice expression and index goes through the fault-aware primitives.
 
   Out of scope here and therefore parameters (`Ext`): decodeArray (area `arrays`), DecodeNumeric and
@@ -16,7 +17,11 @@
     `GoVal.arr [.str lit, .f64 bits, .str lit, …]` (adjacent literals merged, NaN payloads collapsed
     by `Txt.gBits`); the Go harness parses pgread's text back into the same shape, so floats are
     compared as bit patterns, never as decimal text;
-  * `%.2f` of `float64(cents)/100`: `Txt.moneyText` (exact: correctly rounded soft-float);
+  * money (fix 11): `$%s%d.%02d` of sign, |cents|/100, |cents|%100 — integers only.  (Before the fix:
+    `%.2f` of `float64(cents)/100`, modelled exactly by `Txt.moneyText`, a correctly rounded soft-float,
+    kept in Types/Text.lean and Proofs/ScalarsMoney.lean as the record of the defect: wrong digits from
+    |cents| = 7036874417766401 on);
+  * `strings.TrimRight(s, "0")`: `Txt.trimRight 48`;
   * `time.Time` arithmetic and `Format`: `civilFromDays` (proleptic Gregorian calendar, year 0 and
     negative years as Go prints them);
   * `utf8.Valid` / `strings.ToValidUTF8`: `Txt.utf8Valid`, `Txt.toValidUTF8`.
@@ -98,16 +103,12 @@ abbrev OidTsTzRange : Nat := 3910
 abbrev OidDateRange : Nat := 3912
 abbrev OidInt8Range : Nat := 3926
 
-/-- types.go:arrayElemTypes (only the key set matters to the dispatch) -/
-def arrayElemTypes : List (Nat × Nat) :=
-  [(1000, 16), (1001, 17), (1002, 18), (1003, 19), (1005, 21), (1006, 21), (1007, 23), (1008, 26),
-   (1009, 25), (1010, 27), (1011, 28), (1012, 29), (1014, 1042), (1015, 1043), (1016, 20),
-   (1017, 600), (1018, 601), (1019, 602), (1020, 603), (1021, 700), (1022, 701), (1027, 604),
-   (1028, 26), (1040, 829), (1041, 869), (1115, 1114), (1182, 1082), (1183, 1083),
-   (1185, 1184), (1187, 1186), (1231, 1700), (1270, 1266), (1561, 1560), (1563, 1562),
-   (2951, 2950), (3221, 3220), (3643, 3614), (3645, 3615), (3807, 3802), (4073, 4072),
-   (629, 628), (651, 650), (719, 718), (775, 774), (791, 790),
-   (3905, 3904), (3907, 3906), (3909, 3908), (3911, 3910), (3913, 3912), (3927, 3926)]
+/-- types.go:arrayElemTypes — read from the map literal in the current Go source by the harness (package srctab →
+`Generated.Scalars.arrayElemTypes`, rewritten on every run of this area's check).  `Model.Arrays` uses the copy its own
+area's harness emits (`Generated.Arrays.arrayElemTypes`); `Props.C07.C07_tables` proves the two equal and cross-checks them
+against the executed code (every value is among the element decoders DecodeType really applies).  Both the key set
+(which oids are arrays) and the values (the element oid handed to decodeArray) matter. -/
+def arrayElemTypes : List (Nat × Nat) := Generated.Scalars.arrayElemTypes
 
 /-- types.go:fixedLengths.  The entry for `name` (19 ↦ 64, added by the repair of `name[]` in area
 `arrays`) is taken from the generated tables: it is probed on the real code -/
@@ -246,15 +247,30 @@ def fmtZone (tz : Int) : Bytes :=
       [58] ++ padNat 2 (east / 60 % 60) ++ (if east % 60 != 0 then [58] ++ padNat 2 (east % 60) else [])
     else [])
 
+/-- types.go:fracSeconds (fix 12) — the microseconds within a second: nothing when zero, else
+`strings.TrimRight(fmt.Sprintf(".%06d", |f|), "0")` -/
+def fracSeconds (f : Int) : Bytes :=
+  if f.natAbs = 0 then [] else trimRight 48 ([46] ++ padNat 6 f.natAbs)
+
+/-- one `fmt.Sprintf("%d<suffix>", v)` component of decodeInterval, present iff `v != 0` -/
+def intervalPart (v : Int) (suffix : String) : List Bytes := if v != 0 then [decInt v ++ asc suffix] else []
+
+/-- the seconds component (fix 12): `s, f := (us/1e6)%60, us%1e6`; present iff one of them is non-zero; the sign of
+`us` in front, then |s|, the fraction of |f|, `s` -/
+def intervalSeconds (us : Int) : List Bytes :=
+  let s := (us.tdiv 1000000).tmod 60
+  let f := us.tmod 1000000
+  if s != 0 || f != 0 then
+    [(if us < 0 then [45] else []) ++ decInt (if us < 0 then -s else s) ++ fracSeconds (if us < 0 then -f else f) ++ asc "s"]
+  else []
+
 def decodeInterval (data : Bytes) : M GoVal := do
   if data.length < 16 then return lit "0"
   let us ← i64 data 0
   let days ← i32 data 8
   let months ← i32 data 12
-  let part (v : Int) (suffix : String) : List Bytes := if v != 0 then [decInt v ++ asc suffix] else []
-  let parts := part (months.tdiv 12) "y" ++ part (months.tmod 12) "mo" ++ part days "d" ++
-    part (us.tdiv 3600000000) "h" ++ part ((us.tdiv 60000000).tmod 60) "m" ++
-    part ((us.tdiv 1000000).tmod 60) "s"
+  let parts := intervalPart (months.tdiv 12) "y" ++ intervalPart (months.tmod 12) "mo" ++ intervalPart days "d" ++
+    intervalPart (us.tdiv 3600000000) "h" ++ intervalPart ((us.tdiv 60000000).tmod 60) "m" ++ intervalSeconds us
   if parts.isEmpty then return lit "0"
   return .str (joinBytes [32] parts)
 
@@ -365,7 +381,12 @@ def decTid (data : Bytes) : M GoVal := do
   return .str ([40] ++ decNat (← u32 data 0) ++ [44] ++ decNat (← u16 data 4) ++ [41])
 def decFloat4 (data : Bytes) : M GoVal := do return .f32 (← u32 data 0)
 def decFloat8 (data : Bytes) : M GoVal := do return .f64 (← u64 data 0)
-def decMoney (data : Bytes) : M GoVal := do return .str ([36] ++ moneyText (← i64 data 0))
+/-- money (fix 11): `u := uint64(cents); if cents < 0 { u = -u }` is |cents| (2^63 for math.MinInt64, no overflow in
+uint64); then `"$" sign u/100 "." %02d(u%100)` -/
+def decMoney (data : Bytes) : M GoVal := do
+  let cents ← i64 data 0
+  let u := cents.natAbs
+  return .str ([36] ++ (if cents < 0 then [45] else []) ++ decNat (u / 100) ++ [46] ++ padNat 2 (u % 100))
 def decJSON (ext : Ext) (data : Bytes) : GoVal :=
   match ext.jsonUnmarshal data with
   | some v => v
@@ -377,20 +398,24 @@ def decDate (data : Bytes) : M GoVal := do
   if days = -2147483648 then return lit "-infinity"
   return .str (fmtDate (days + 10957))
 
-def decTime (data : Bytes) : M GoVal := do return .str (fmtTimeOfDay (← i64 data 0))
+def decTime (data : Bytes) : M GoVal := do
+  let us ← i64 data 0
+  return .str (fmtTimeOfDay us ++ fracSeconds (us.tmod 1000000))
 
 def decTimeTZ (data : Bytes) : M GoVal := do
   let us ← i64 data 0
   let tz ← i32 data 8
-  return .str (fmtTimeOfDay us ++ fmtZone tz)
+  return .str (fmtTimeOfDay us ++ fracSeconds (us.tmod 1000000) ++ fmtZone tz)
 
 def decTimestamp (data : Bytes) : M GoVal := do
   let us ← i64 data 0
   if us = 9223372036854775807 then return lit "infinity"
   if us = -9223372036854775808 then return lit "-infinity"
   let sec := us.tdiv 1000000
-  let sec := if us.tmod 1000000 < 0 then sec - 1 else sec
-  return .str (fmtUnix (pgEpochUnix + sec))
+  let frac := us.tmod 1000000
+  let sec' := if frac < 0 then sec - 1 else sec
+  let frac' := if frac < 0 then frac + 1000000 else frac
+  return .str (fmtUnix (pgEpochUnix + sec') ++ fracSeconds frac')
 
 /-- `%02x:%02x:…` over `data[0] … data[n-1]` -/
 def macBytes (data : Bytes) : Nat → Nat → M (List Bytes)
@@ -436,9 +461,21 @@ def decCircle (data : Bytes) : M GoVal := do
   let r ← u64 data 16
   return fstr ([lit "<"] ++ p ++ [lit ",", hole r, lit ">"])
 
+/-- the part of `case OidJSONB` after ParseJSONB returned nil: the 8-byte document that is the JSON value `null`
+(a one-element scalar array holding a null entry; numjson fix 06) decodes to nil, anything else is shown raw.
+Go: `len(data) == 8 && u32(data, 0) == jbFArray|jbFScalar|1 && u32(data, 4)&0x70000000 == jeNull` (short-circuit) -/
+def jsonbNilCase (data : Bytes) : M GoVal :=
+  if data.length = 8 then
+    u32 data 0 >>= fun h =>
+      if h = 0x50000001 then
+        u32 data 4 >>= fun e =>
+          if e &&& 0x70000000 = 0x40000000 then pure .nil else pure (.str (safeString data))
+      else pure (.str (safeString data))
+  else pure (.str (safeString data))
+
 def decJSONB (ext : Ext) (data : Bytes) : M GoVal := do
   match ← ext.parseJSONB data with
-  | .nil => return .str (safeString data)
+  | .nil => jsonbNilCase data
   | v => return v
 
 /-- decodeScalar without the range case (which needs DecodeType itself for its bounds) -/
